@@ -148,6 +148,45 @@ fn gen_interp(r: &mut Rng, n: usize, pool: &[Vec<u8>]) -> Vec<u8> {
     }
 }
 
+/// all vectors over `n` positions with entries F/T/u
+fn all_vecs(n: usize) -> Vec<Vec<u8>> {
+    let mut vs: Vec<Vec<u8>> = vec![Vec::new()];
+    for _ in 0..n {
+        vs = vs.into_iter().flat_map(|v| (0..3u8).map(move |x| { let mut w = v.clone(); w.push(x); w })).collect();
+    }
+    vs
+}
+
+/// exhaustive small scope: EVERY sequence of at most `len` nogoods over `n` variables (the empty
+/// nogood included) under each duplicate-elimination mode, queried with EVERY interpretation
+pub fn gen_exh(n: usize, len: usize, out: &mut Out) {
+    let vs = all_vecs(n);
+    let mut seqs: Vec<Vec<usize>> = vec![Vec::new()];
+    let mut frontier: Vec<Vec<usize>> = vec![Vec::new()];
+    for _ in 0..len {
+        frontier = frontier.iter().flat_map(|s| (0..vs.len()).map(move |i| { let mut t = s.clone(); t.push(i); t })).collect();
+        seqs.extend(frontier.iter().cloned());
+    }
+    let mut case = 0;
+    for mode in MODES {
+        for seq in &seqs {
+            out.line(&format!("case ngexh-{case}"));
+            case += 1;
+            out.line(&format!("ngnew {n}"));
+            out.line(&format!("ngmode {mode}"));
+            for i in seq {
+                out.line(&format!("ngadd {}", show(&vs[*i])));
+            }
+            out.line("ngdump");
+            for v in &vs {
+                out.line(&format!("ngconcl {}", show(v)));
+                out.line(&format!("ngclosure {}", show(v)));
+            }
+            out.line("ngfinish");
+        }
+    }
+}
+
 pub fn gen(r: &mut Rng, cases: usize, size: usize, out: &mut Out) {
     let maxv = if size == 0 { 6 } else { size.min(10) };
     for case in 0..cases {
